@@ -192,6 +192,10 @@ def run(tier):
                 name = f"matchspecial:{a1}{dflt}:{wrap}"
                 corpus.append((name, src, None))
                 special_inputs[name] = [[v] for v in special]
+    # a stateful call site written in every sub-expression slot of every expression form (lib/sitepos.py)
+    import sitepos
+    for name, inline, _ref in sitepos.programs():
+        corpus.append((name, inline, None))
     pins = {}
     d = os.path.join(vlib.VERIF, "findings", "C03")
     if os.path.isdir(d):
